@@ -95,6 +95,10 @@ mod inner {
 #[cfg(unix)]
 mod tz_info;
 
+#[cfg(all(unix, chrono_verif))]
+#[doc(hidden)]
+pub use self::tz_info::verif as verif_tz;
+
 /// The local timescale.
 ///
 /// Using the [`TimeZone`](./trait.TimeZone.html) methods
